@@ -82,14 +82,14 @@ check('C07',
       TRUST + ' Oracle: harness/refeval.py.', 'symbolic execution of rustc MIR with z3; observable handlers; fault index as a symbolic selector', 'DESIGN.md section 5 C07')
 
 check('C14',
-      'Symbolic execution with a Mutex ghost state (holder, poisoned): every handler kind performs one of 7 re-entrant actions (parse, execute, register_* x4, lock the evaluating context\'s handle); locking a mutex held by the same thread is '
-      'the Deadlock outcome. 9 templates x 7 actions; assertion: no Deadlock, normal result, locks free afterwards. Counterexamples are replayed natively under a watchdog (hang).',
+      'Symbolic execution with a Mutex ghost state (holder, poisoned): every handler kind performs one of 13 re-entrant actions (parse, execute, register_* x4, lock the evaluating context\'s handle, evaluate a program invoking the same handler, rebind a variable of the evaluating context, and four sequences of two of these); locking a mutex held by the same thread is '
+      'the Deadlock outcome. 24 templates x 13 actions; Drop impls written in the crate are executed; assertion: no Deadlock, normal result, locks free afterwards. Counterexamples are replayed natively under a watchdog (hang).',
       TRUST + ' std::sync::Mutex modelled as non-re-entrant; OnceCell as run-once.', 'symbolic execution of rustc MIR with lock ghost state', 'DESIGN.md section 5 C14')
 
 check('C15',
       'Symbolic execution including MIR unwind/cleanup edges: the k-th handler invocation (every k, every handler kind: context function by call / bare name, global function, prefix/infix/postfix operator) returns Err or panics. '
       'Assertions: no later handler runs, the panic reaches the caller unchanged, no registry or context mutex is left held or poisoned (guard drops on cleanup paths poison, as in std), the Context equals the reference interpreter\'s '
-      'state at the failure point, and a follow-up execute/get_variable on the same context works.',
+      'state at the failure point, and a follow-up execute/get_variable on the same context works. Integers in statics / thread-locals that a failing evaluation moves linearly are extrapolated to v + k*d with a solver variable k <= 4096 (leak acceleration) before the follow-up; witnesses are replayed with that many real repetitions.',
       TRUST + ' Mutex poisoning modelled per std documentation (guard dropped during unwinding poisons).', 'symbolic execution of rustc MIR incl. unwind edges; fault index as symbolic selector', 'DESIGN.md section 5 C15')
 
 check('C17',
@@ -124,14 +124,14 @@ check('C11',
 
 check('C10',
       'Bounded symbolic execution of the private Tokenizer driven to EOF (Tokenizer::new/next from MIR) on (U) all UTF-8 inputs of <= 3 (4) bytes, (S) string-literal shaped inputs with symbolic 1-3 byte characters and trailing bytes, '
-      '(R) inputs around a freshly registered two-character operator whose characters are symbolic. On every path: spans in bounds / on character boundaries / increasing, gap bytes are whitespace and token text equals the source slice (z3 validity over the byte variables), '
+      '(R) inputs around a freshly registered operator: two symbolic characters, three symbolic symbol characters whose two-character beginning occurs alone, one three-byte character, concrete CJK word operators. On every path: spans in bounds / on character boundaries / increasing, gap bytes are whitespace and token text equals the source slice (z3 validity over the byte variables), '
       'and the token sequence equals that of a reference tokenizer (the documented lexical rules) evaluated under the same path condition; error paths must be errors of the reference too.',
       TRUST + ' Oracle: the reference tokenizer in harness/c10.py.', 'symbolic execution of rustc MIR with z3; reference tokenizer under the same path condition', 'DESIGN.md section 5 C10')
 
 check('C16',
-      'Sequential isolation by bounded symbolic execution: for all 625 ordered pairs (A,B) of 25 programs and four history modes (A parsed only / evaluated once / evaluated 130 times / same AST twice), with symbolic integers in the contexts, '
+      'Sequential isolation by bounded symbolic execution: for all 625 ordered pairs (A,B) of 25 programs and history modes (A parsed only / evaluated once / evaluated 130 times, extrapolated by a symbolic number k <= 4096 of further evaluations where an integer static moves linearly / same AST twice / A parsed then registrations / k <= 300 evaluations in flight on other threads, k symbolic), with symbolic integers in the contexts, '
       'B after the history must equal B alone in outcome, value and final context (z3 validity), A\'s context is untouched, and a repeated exec of one AST agrees. Buffer addresses are unconstrained symbols (an allocator may reuse them). '
-      'Global cells changed by a call are listed in the evidence (a violation only through an observable difference). The concurrent half of C16 is covered by C13.',
+      'Global cells changed by a call are listed in the evidence (a violation only through an observable difference). Interleavings are C13\'s subject; the in-flight mode here covers what concurrent evaluations hold in process-wide integers.',
       TRUST + ' Counterexamples replayed natively from a reused line buffer.', 'symbolic execution of rustc MIR with z3 over call histories; symbolic addresses', 'DESIGN.md section 5 C16')
 
 check('C13',
